@@ -98,7 +98,7 @@ package client
 //@ func (c *Client) closeOutdatedProxies(tunnels []Tunnel)
 //@   safety off
 //@   opt frame=off
-//@   requires c.proxies != nil
+//@   requires env-the-proxy-cache-exists: c.proxies != nil
 //@   ensures proxies-of-the-listed-hostnames-are-gone: forall i int {tunnels[i]} :: (0 <= i && i < len(tunnels)) ==> !c.proxies.keys[tunnels[i].Hostname]
 //@   ensures other-proxies-are-kept: forall h string {c.proxies.keys[h]} :: (forall i int {tunnels[i]} :: (0 <= i && i < len(tunnels)) ==> tunnels[i].Hostname != h) ==> (c.proxies.keys[h] == old(c.proxies.keys[h]))
 //@   ensures no-proxy-appears: forall h string {c.proxies.keys[h]} :: c.proxies.keys[h] ==> old(c.proxies.keys[h])
@@ -109,8 +109,8 @@ package client
 //@ func (c *Config) buildRouter(drop []Tunnel)
 //@   safety off
 //@   opt frame=off
-//@   requires c.router != nil
-//@   requires current-hostnames-are-distinct: forall i, j int {c.Tunnels[i], c.Tunnels[j]} :: (0 <= i && i < j && j < len(c.Tunnels) && c.Tunnels[i].Hostname != "" && c.Tunnels[j].Hostname != "") ==> c.Tunnels[i].Hostname != c.Tunnels[j].Hostname
+//@   requires env-the-router-exists: c.router != nil
+//@   requires env-current-hostnames-are-distinct: forall i, j int {c.Tunnels[i], c.Tunnels[j]} :: (0 <= i && i < j && j < len(c.Tunnels) && c.Tunnels[i].Hostname != "" && c.Tunnels[j].Hostname != "") ==> c.Tunnels[i].Hostname != c.Tunnels[j].Hostname
 //@   ensures every-current-tunnel-is-routed-with-its-current-settings: forall i int {c.Tunnels[i]} :: (0 <= i && i < len(c.Tunnels) && c.Tunnels[i].Hostname != "") ==> (c.router.keys[c.Tunnels[i].Hostname] && routeOf(c.Tunnels[i], c.router.m[c.Tunnels[i].Hostname]))
 //@   ensures dropped-hostnames-not-in-the-current-list-are-unrouted: forall j int {drop[j]} :: (0 <= j && j < len(drop) && (forall i int {c.Tunnels[i]} :: (0 <= i && i < len(c.Tunnels)) ==> c.Tunnels[i].Hostname != drop[j].Hostname)) ==> !c.router.keys[drop[j].Hostname]
 //@   loop 1: invariant dropped-so-far: -1 <= rangeindex && rangeindex < len(drop) && unchanged(drop) && unchanged(c.Tunnels) && c.router == old(c.router) && c.Tunnels == old(c.Tunnels) && (forall j int {drop[j]} :: (0 <= j && j <= rangeindex) ==> !c.router.keys[drop[j].Hostname])
@@ -129,6 +129,10 @@ package client
 //@ func (c *Client) RebuildTunnels(tunnels []Tunnel)
 //@   safety off
 //@   opt frame=off
+//@   ghost cfgLocked bool = false
+//@   at call Lock#*: ghost cfgLocked := true
+//@   at call Unlock#?: ghost cfgLocked := false
+//@   at call writeFile#*: assert the-live-configuration-is-saved-under-its-write-lock: cfgLocked && callarg0 == c.Configuration
 //@   requires c.proxies != nil && c.Configuration != nil && c.Configuration.router != nil
 //@   requires new-hostnames-are-distinct: forall i, j int {tunnels[i], tunnels[j]} :: (0 <= i && i < j && j < len(tunnels) && tunnels[i].Hostname != "" && tunnels[j].Hostname != "") ==> tunnels[i].Hostname != tunnels[j].Hostname
 //@   ghost d []Tunnel
@@ -268,3 +272,67 @@ package client
 //@   ghost lastCase int = -1
 //@   at after select#*: ghost lastCase := callresult0
 //@   ensures local-the-maintainer-stops-only-when-the-client-closes-or-its-context-ends: lastCase == 0 || lastCase == 1 || (lastCase == -1 && c.PKIClient == nil)
+
+// ---- C44 (removal of a published tunnel): after the server acknowledged, the entry with the requested hostname is
+// removed from the list, and both the proxy cache and the router are told about the REQUESTED hostname (by value, not
+// through an alias of the slot that the in-place removal overwrites); a failed server call changes nothing
+//@ func (c *Client) tunnelRemovalWrapper(tunnel Tunnel, fn func() error) (err error)
+//@   safety off
+//@   opt frame=off
+//@   ghost cfgLocked bool = false
+//@   at call Lock#*: ghost cfgLocked := true
+//@   at call Unlock#?: ghost cfgLocked := false
+//@   at call writeFile#*: assert the-live-configuration-is-saved-under-its-write-lock: cfgLocked && callarg0 == c.Configuration
+//@   requires c != nil && c.Configuration != nil
+//@   ghost acked int = 0
+//@   ghost aerr error = nil
+//@   ghost closed int = 0
+//@   ghost rebuilt int = 0
+//@   at after call dyn#1: ghost aerr := callresult
+//@   at after call dyn#1: ghost acked := acked + 1
+//@   at call closeOutdatedProxies#*: assert the-cached-proxy-of-the-requested-hostname-is-closed: acked == 1 && aerr == nil && len(callarg1) == 1 && callarg1[0].Hostname == tunnel.Hostname && closed == 0
+//@   at call closeOutdatedProxies#*: ghost closed := closed + 1
+//@   at call buildRouter#*: assert the-route-of-the-requested-hostname-is-dropped: closed == 1 && len(callarg1) == 1 && callarg1[0].Hostname == tunnel.Hostname && rebuilt == 0
+//@   at call buildRouter#*: ghost rebuilt := rebuilt + 1
+//@   ensures local-a-refused-removal-changes-nothing: (acked == 1 && aerr != nil) ==> (err == aerr && closed == 0 && rebuilt == 0)
+//@   ensures local-cache-and-router-are-updated-together: closed == rebuilt
+
+//@ func (c *Client) UpdateApex(apex string)
+//@   safety off
+//@   opt frame=off
+//@   requires c != nil && c.Configuration != nil
+//@   ghost cfgLocked bool = false
+//@   at call Lock#*: ghost cfgLocked := true
+//@   at call Unlock#*: ghost cfgLocked := false
+//@   at call writeFile#*: assert the-live-configuration-is-saved-under-its-write-lock: cfgLocked && callarg0 == c.Configuration
+//@   ensures local-the-lock-is-released: !cfgLocked
+
+// Close returns only after every background goroutine it tracks has finished (so no configuration save is left
+// running when the process exits): the wait is a direct, unbounded WaitGroup.Wait at the end of Close
+//@ func (c *Client) Close()
+//@   safety off
+//@   opt frame=off
+//@   requires c != nil && c.proxies != nil
+//@   ghost waited int = 0
+//@   ghost signalled int = 0
+//@   at call close#*: ghost signalled := signalled + 1
+//@   at call Wait#*: assert the-background-goroutines-are-told-to-stop-before-close-waits-for-them: signalled == 1 && waited == 0
+//@   at after call Wait#*: ghost waited := waited + 1
+//@   at go Close$2#?: assert the-wait-is-not-delegated-to-a-goroutine-that-close-may-abandon: false
+//@   ensures local-close-returns-only-after-the-tracked-goroutines-finished-or-it-was-already-closed: waited == 1 || signalled == 0
+
+// the background renewal adopts and saves the renewed certificate only while holding the configuration write lock
+// (taken after the RPC, held until return), and only if the certificate is still the one the renewal started from
+//@ func (c *Client) checkAndRenewCertificate(ctx context.Context)
+//@   safety off
+//@   opt frame=off
+//@   requires c != nil && c.Configuration != nil
+//@   ghost wlocked bool = false
+//@   ghost wheld bool = false
+//@   ghost rpcs int = 0
+//@   at after call performRenewalRPC#*: ghost rpcs := rpcs + 1
+//@   at call Lock#*: assert the-write-lock-is-taken-after-the-slow-rpc: rpcs == 1
+//@   at call Lock#*: ghost wlocked := true
+//@   at defer Unlock#*: ghost wheld := true
+//@   at call Unlock#?: assert the-write-lock-is-held-until-return: false
+//@   at call updateConfigurationWithCert#*: assert the-renewed-certificate-is-adopted-and-saved-under-the-write-lock-for-an-unchanged-configuration: wlocked && wheld && c.Configuration.Certificate == certPEM
